@@ -67,6 +67,11 @@ func vhC12Logic() {
 	}
 	ctl := cfg.new()
 	startNs := verifTimeNanos(ctl.start)
+	if !verifSymbolic() {
+		// native replay: the library reads the real clock, so the recorded clock values are
+		// imposed by back-dating the controller's start time before every call
+		startNs = vhNativeClock()
+	}
 	// model of the schedule
 	base := cfg.InitialInterval
 	b := base
@@ -75,6 +80,9 @@ func vhC12Logic() {
 	for step := 0; step < k; step++ {
 		switch verifChoose("event", 2) {
 		case 0: // a retry is requested
+			if !verifSymbolic() {
+				ctl.start = time.Now().Add(-time.Duration(vhNativeClock() - startNs))
+			}
 			wait, ok := ctl.next()
 			nowNs := vhLastNow()
 			elapsed := time.Duration(nowNs - startNs)
@@ -112,6 +120,9 @@ func vhC12Logic() {
 		case 1: // a connection succeeded, possibly carrying a server retry value
 			d := []time.Duration{0, -5, 250 * time.Millisecond, 4 * time.Second}[verifChoose("reset", 4)]
 			ctl.reset(d)
+			if !verifSymbolic() {
+				vhNativeClock()
+			}
 			if d > 0 {
 				base = d
 			} else {
@@ -130,5 +141,13 @@ func vhLastNow() int64 {
 	if verifSymbolic() {
 		return verifLastNow()
 	}
-	return time.Now().UnixNano()
+	return vhNativeNow
+}
+
+var vhNativeNow int64
+
+// vhNativeClock (native replay only) takes the next recorded clock value.
+func vhNativeClock() int64 {
+	vhNativeNow = verifNondetInt64("time.Now")
+	return vhNativeNow
 }
